@@ -15,6 +15,7 @@ for d in sorted(glob.glob('/verif/seeded/*/')):
     if len(summ) > 230: summ = summ[:227] + '...'
     note = ''
     if first_missed: note = ' (first missed by %s; caught after strengthening)' % ', '.join(first_missed)
+    if m.get('lead_note'): note += ' (' + m['lead_note'] + ')'
     rows.append('| %s | %s | %s | %s%s | %s |' % (name, m.get('property', ''), summ, ', '.join(caught) or '-', note, ', '.join(missed) or '-'))
 tab = ['| seed | property | change (needs something specific to manifest; see seeded/<seed>/meta.json) | caught by (quick tier) | also run, not caught (other properties\' checks) |', '|---|---|---|---|---|'] + rows
 hm = []
